@@ -627,6 +627,30 @@ def rule_vec_reader(ctx, f, rid):
               "/Kids or /Annots array whose element type accepts a reference is read as a single element", b["span"], detail="Reference(r) => Self::from_primitive(resolve(r)?)")
 
 
+def rule_reference_parse(ctx, f):
+    ctx.rule("C18-PARSE", "a reference is parsed whatever object number it names: `n g R` becomes Primitive::Reference without a test of n against a limit - whether the "
+             "object exists is decided when (and if) the reference is followed, where a missing object reads as null")
+    b = f.body("parser::_parse_with_lexer_ctx")
+    if b is None:
+        ctx.lost("C18-PARSE", "parser::_parse_with_lexer_ctx")
+        return
+    from cfg import ccp_reachable
+    refs = [i for i, j, st in F.stmts(b) if st[0] == "assign" and st[2][0] == "aggregate" and st[2][1].get("adt") == "primitive::Primitive" and st[2][1].get("variant") == "Reference"]
+    eqs = [(bi, t) for bi, t in F.calls(b) if last_seg(F.callee_name(t)) == "equals" and t.get("dest") and t.get("target") is not None and any(F.const_bytes(a) == "R" for a in t["args"])]
+    if not ctx.floor("C18-PARSE", min(len(refs), len(eqs)), 1, "`R` test and Reference construction in the object parser"):
+        return
+    bi, t = eqs[0]
+    yes = ccp_reachable(b, t["target"], init={t["dest"][0]: 1})
+    no = ccp_reachable(b, t["target"], init={t["dest"][0]: 0})
+    region = yes - no
+    errs = sorted({st[2][1].get("variant") for r in region for st in b["blocks"][r]["stmts"] if st[0] == "assign" and st[2][0] == "aggregate" and st[2][1].get("adt") == "error::PdfError"} - {"Try"})
+    cmps = [st for r in region for st in b["blocks"][r]["stmts"] if st[0] == "assign" and st[2][0] == "binop" and st[2][1] in ("Lt", "Le", "Gt", "Ge") and
+            (F.const_int(st[2][2]) is not None or F.const_int(st[2][3]) is not None)]
+    ctx.check(not errs and not cmps, "C18-PARSE", "_parse_with_lexer_ctx#reference-any-number", "the reference branch of the object parser can fail on its own (%s%s): a dictionary "
+              "that merely mentions an object number beyond some limit cannot be read at all, instead of the entry reading as absent" % (", ".join(errs), " after a comparison with a constant" if cmps else ""),
+              t["span"], detail="`n g R` -> Primitive::Reference, no range test")
+
+
 def rule_size(ctx, f):
     ctx.rule("C18-SIZE", "reading never makes room in the cross-reference table: it has the /Size slots it was created with, the merge of a section stores "
              "through get_mut() only, and only create / promise append to it - so a number at or beyond /Size stays undefined and reads as absent")
@@ -699,6 +723,7 @@ def run(ctx):
     rule_elements(ctx, f)
     rule_vec_reader(ctx, f, "C18-G2")
     rule_size(ctx, f)
+    rule_reference_parse(ctx, f)
     return ctx.finish(
         "Static analysis of MIR facts: (ERR) the PdfError variants constructed where the lookup finds no object and the variants "
         "that wrap another PdfError are extracted from the program; the predicate the Option reader applies to a failed element "
